@@ -156,6 +156,24 @@ pub fn run_prog(case: &Value) -> Value {
     let globals = vec![Rc::new(Object::Null); GLOBALS_SIZE];
     let mut vm = VM::new_with_global_store(bytecode, globals);
     init_builtin_vars(&vm, argv);
+    // optionally make the first packet of a capture file the current packet (as filter mode does)
+    if let Some(path) = case.get("curr_pkt").and_then(|s| s.as_str()) {
+        use crate::builtins::pcap::Pcap;
+        use crate::object::file::FileHandle;
+        let set = guarded("curr_pkt", || {
+            let f = std::fs::File::open(path).map_err(|e| e.to_string())?;
+            let fh = Rc::new(FileHandle::new_reader(std::io::BufReader::new(f)));
+            let pcap = Pcap::from_file(fh).map_err(|e| e.to_string())?;
+            let pkt = pcap.next_packet().map_err(|e| e.to_string())?;
+            vm.set_curr_pkt(pkt);
+            Ok::<(), String>(())
+        });
+        match set {
+            Ok(Ok(())) => {}
+            Ok(Err(e)) => return json!({"how":"tool-error","msg":e}),
+            Err(v) => return v,
+        }
+    }
     crate::verif::set_fuel(fuel);
     crate::verif::set_trace_mode(trace);
     let ran = guarded("run", || vm.run());
